@@ -40,6 +40,9 @@ func g0List(u *universe, roots []rootRef) []string {
 }
 
 func g0Main(args []string) {
+	if len(args) == 0 {
+		args = stdinFields()
+	}
 	if len(args) != 3 {
 		os.Exit(2)
 	}
@@ -60,6 +63,9 @@ func g0Main(args []string) {
 
 // g0AfterMain: resolve the roots of a first universe, then print g0List of a second.
 func g0AfterMain(args []string) {
+	if len(args) == 0 {
+		args = stdinFields()
+	}
 	if len(args) != 5 {
 		os.Exit(2)
 	}
@@ -101,7 +107,8 @@ func execCross(f []string) string {
 	// what this (long-lived) harness process resolved before: the first
 	// child resolves universe 1 and then universe 2, the second only universe 2.
 	child := func(args ...string) ([]string, string) {
-		cmd := exec.Command(exe, args...)
+		cmd := exec.Command(exe, args[0])
+		cmd.Stdin = strings.NewReader(strings.Join(args[1:], " ") + "\n")
 		var ob bytes.Buffer
 		cmd.Stdout = &ob
 		if err := cmd.Start(); err != nil {
@@ -114,7 +121,7 @@ func execCross(f []string) string {
 			if err != nil {
 				return nil, "err"
 			}
-		case <-time.After(12 * time.Second):
+		case <-time.After(8 * time.Second):
 			cmd.Process.Kill()
 			return nil, "timeout"
 		}
